@@ -908,6 +908,7 @@ Section Dispatch.
       destruct (pick_conv R (e_convs E) (order_funcs fs args) args PNone') as [|f| |] eqn:Ep; try (left; cbn; eauto; fail).
       apply pick_conv_in in Ep. destruct Ep as [Ep|(n & I1 & Htm)]; [discriminate|].
       destruct (Hin n f I1) as [Hf Har].
+      destruct (r_dwc_only_converted R && negb (any_needs_arith (f_params f) args)); [left; cbn; eauto|].
       destruct (new_plist E (f_params f) args) as [args'|] eqn:Enp; [| left; cbn; eauto ].
       assert (Hca : call_args_ok E f args args').
       { unfold types_match_except_for_arithmetic in Htm.
